@@ -18,7 +18,7 @@ import "verif/internal/gen"
 //	R                the receiver, T the thisArg object, fn a plain function
 type V struct {
 	K   string `json:"k"`
-	N   gen.F  `json:"n,omitempty"`
+	N   gen.F  `json:"n"` // no omitempty: -0 must survive the round trip
 	S   string `json:"s,omitempty"`
 	B   bool   `json:"b,omitempty"`
 	Tag string `json:"tag,omitempty"`
